@@ -266,6 +266,7 @@ func parseCryptoFunction(raw, crypto string) (SuiteConfig, error) {
 // and sets fields in the given cfg. Example approach; adapt as needed.
 func parseDataInputTokens(cfg *SuiteConfig, input string) error {
 	toks := strings.Split(input, "-")
+	last := 0
 	for _, tok := range toks {
 		tokU := strings.ToUpper(tok)
 		switch {
@@ -326,6 +327,12 @@ func parseDataInputTokens(cfg *SuiteConfig, input string) error {
 			// unrecognized token
 			return fmt.Errorf("unknown data input token %q", tok)
 		}
+		// each data input appears at most once, in the order C, Q, P, S, T
+		rank := strings.IndexByte("CQPST", tokU[0]) + 1
+		if rank <= last {
+			return fmt.Errorf("data input %q repeated or out of order", tok)
+		}
+		last = rank
 	}
 	return nil
 }
